@@ -107,6 +107,10 @@ def monitor(ctx, spec, out):
     c01.monitor(ctx, spec, out)
 
 
+def pre_build(ctx):
+    core_units.pre_build_tracker(ctx)
+
+
 def run(ctx):
     core_units.run(ctx, which="C15")
     ctx.monitor_rule = ("per optimizer (all 22): scores of the first k steps replaced by NaN / +inf / -inf following masks (all-invalid "
